@@ -23,9 +23,8 @@ FINDING_CODES = {
     23: "racy:MdnsManager.autoaccept",
     24: "racy:MdnsManager.mdnsProvider",
     25: "racy:MdnsManager.report",
-    26: "racy:AvahiProvider.shutdownChan",
-    27: "racy:AvahiProvider.addServiceChan",
-    28: "racy:AvahiProvider.removeServiceChan",
+    # 26-28: AvahiProvider channel fields, a false alarm of the lock-only model (ordered by the
+    # shutdownChan rendezvous; exception code 0 in the table), numbers not reused
 }
 
 TRACKED_PKGS = ("hub", "ship", "ws", "mdns", "api")
@@ -241,12 +240,19 @@ def race_stress(ctx):
     for name, sp in spec.items():
         codes = list(sp["exc"].values()) + ([int(sp["arg"])] if sp["kind"] == "X" else [])
         for c in codes:
+            if c == 0:   # trusted ordering outside the model (channel rendezvous), not a finding
+                continue
             if FINDING_CODES.get(c) != "racy:" + name:
                 problems.append(("spec", "finding code %d is used for %s in LocksetSpec.v but named %r in checks/C20.py"
                                  % (c, name, FINDING_CODES.get(c))))
     exc_fns = {}
     for name, sp in spec.items():
-        for fn, c in sp["exc"].items():
+        for fn, c in list(sp["exc"].items()):
+            if c == 0:
+                # assumed ordered by channel synchronisation: the race detector models channels, so a
+                # report here refutes the assumption -> treated like a race on a protected field
+                del sp["exc"][fn]
+                continue
             exc_fns[fn] = c
     init_fns = set()
     for sp in spec.values():
@@ -326,7 +332,7 @@ def race_stress(ctx):
         api_calls_by_operation=summ.get("api_detail") or api,
         handshakes_completed=summ.get("handshakes_completed"), spine_written=summ.get("spine_payloads_written"),
         spine_received=summ.get("spine_payloads_received"), mdns_reports_to_hubs=summ.get("mdns_reports_to_hubs"),
-        real_mdns=summ.get("real_mdns"), library_panics=(summ.get("panics") or [])[:10], process_deaths=summ.get("process_deaths"),
+        real_mdns=summ.get("real_mdns"), avahi_provider=summ.get("avahi_provider"), library_panics=(summ.get("panics") or [])[:10], process_deaths=summ.get("process_deaths"),
         race_reports=len(reps), distinct_signatures=len(by),
         signatures={("%s %s" % k): v["count"] for k, v in by.items()},
         findings_exhibited_this_run=exhibited,
@@ -350,15 +356,19 @@ SPEC = dict(
              "guard table by vm_compute and a bridge theorem turns that into race freedom of every protected field for every "
              "execution the facts explain, and into 'races only at the recorded accesses' for the fields with findings. "
              "Validation: a -race build drives three real hubs (loopback TLS, generator certificates, fake mDNS, churn, "
-             "Shutdown under traffic, SPINE writes, a real MdnsManager) and every race-detector report is attributed to the "
-             "table; a report on a protected field breaks the check, a report outside the table must be a known finding.",
+             "Shutdown under traffic, SPINE writes), a real MdnsManager and generations of AvahiProvider over a fake avahi "
+             "server, and every race-detector report is attributed to the table; a report on a protected field breaks the "
+             "check, a report outside the table must be a known finding.",
         note="Weakest claim of the suite, partial: the translator (purely syntactic go/ast analysis, no go/types; unresolved "
              "selectors are required to be none) is TRUSTED - the theorem's hypothesis `explained` says its facts are the "
              "program's accesses; initialiser lists (incl. 'Hub.Start returns before other methods are used') and thread-class/"
              "confinement annotations are hand-written; publication to application goroutines is assumed safe; races on memory "
              "the table does not name (objects behind the fields such as *MdnsEntry, channel internals, third-party "
              "libraries, closures over locals, package variables) are invisible to the proof and only sampled by the race "
-             "detector; race replays are statistical. Recorded findings: see known_findings.json (racy:* codes). No axioms.",
+             "detector; race replays are statistical. The AvahiProvider channel fields are read by the listener without the mutex: "
+             "ordered with Shutdown's writes by the unbuffered shutdownChan rendezvous, which the lock-only model cannot express "
+             "(hand-written exception code 0, validated by the race detector). ZeroconfProvider is covered statically only. "
+             "Recorded findings: see known_findings.json (racy:* / race:* codes). No axioms.",
         technique="Coq proof (lockset soundness by induction over well-formed traces) + Go-AST must-lockset translator + computed "
                   "table check + race-detector stress as validation",
         ref="DESIGN.md §6 C20"),
@@ -383,6 +393,8 @@ SPEC = dict(
                  "returns before other Hub methods are called; InitDataProcessing is called once, by the ship connection's constructor",
                  "dataReader/remoteShipID are only touched while processing a received message, which only the websocket read "
                  "pump goroutine does",
-                 "mutexes are released by the goroutine that acquired them"],
+                 "mutexes are released by the goroutine that acquired them",
+                 "AvahiProvider.chanListener's unlocked reads of shutdownChan/addServiceChan/removeServiceChan are ordered with "
+                 "Shutdown's and Start's writes by the shutdownChan rendezvous and the go statement (exception code 0)"],
     extra_steps=[race_stress],
 )
